@@ -346,6 +346,22 @@ def check_r4(ctx, byname, strict=False):
         ok = bool(rets) and all(is_null(g.node_ast(p).get("val")) for p in rets)
         ctx.ob("C02.R4c", "_handle_full_queue:over-max-returns-null", ok,
                "beyond the maximum the reservation fails with nullptr (caller blocks or drops), never a pointer", loc=cond["loc"], fn=m)
+        if strict:
+            # R4f (C09 only): the node that is allocated can hold the record: the allocation is reached only after
+            # 'nbytes <= capacity' was established for the final value of the capacity variable
+            fit = []
+            for (b2, cond2) in g.branch_edges_on(lambda c: cmp_sides(c) is not None):
+                op2, l2, r2 = cmp_sides(cond2)
+                if var_ref(l2) == capv and var_ref(r2) == nbytes and capv is not None:
+                    fit.append((b2, "F"))   # capacity < / <= nbytes is 'not yet': the other outcome establishes it
+                elif var_ref(l2) == nbytes and var_ref(r2) == capv and capv is not None:
+                    fit.append((b2, "T"))
+            wr = [p for n in m.walk() if n["k"] in ("BinaryOperator", "CompoundAssignOperator") and n.get("op", "").endswith("=") and
+                  n.get("op") not in ("==", "!=", "<=", ">=") and var_ref(n.get("lhs")) == capv and capv is not None for p in g.positions(n)]
+            ok = bool(fit) and not g.exists_path([g.entry_node], npos, avoid_edges=fit) and not g.exists_path(wr, npos, avoid_edges=fit)
+            ctx.ob("C02.R4f", "_handle_full_queue:new-node-holds-the-record", ok,
+                   "the capacity handed to the new node has passed 'nbytes <= capacity' after its last change: the reservation in the "
+                   "fresh node cannot fail (a fitting statement is neither refused nor left to a second allocation)", loc=nw["loc"], fn=m)
         # inner: nbytes > max -> throw
         inner = []
         for (b2, c2) in g.branch_edges_on(lambda c: cmp_sides(c) is not None):
